@@ -56,6 +56,8 @@ class ConveyorBelt(Edge):
         
     """
     def __init__(self, env, id, capacity, delay,accumulating):
+        if delay < 0:
+            raise ValueError("delay must be non-negative.")
         super().__init__(env, id, capacity )
        
         self.state = "IDLE_STATE"
